@@ -578,10 +578,14 @@ func c16(c *report.Check) {
 		c.Set("bfs_frontier_left_"+hm.Name, len(frontier))
 		ws.close()
 	}
+	// ---- 3. listing-prefix leg (byte-wise prefix match: letter case, NUL / high bytes, SQL wildcards)
+	pStores, pListings := c16PrefixLeg(c, dist)
+	c.Set("listprefix_stores", pStores)
+	c.Set("listprefix_listings_compared", pListings)
 	for _, m := range internal {
 		c.Internal(m)
 	}
-	c.Set("evaluations", (paths+transitions)*len(backendNames))
+	c.Set("evaluations", (paths+transitions)*len(backendNames)+pListings)
 	c.Set("full_paths", paths)
 	c.Set("operations_compared", opsRun)
 	c.Set("states", states)
@@ -591,7 +595,7 @@ func c16(c *report.Check) {
 	c.Set("failing_histories_explained_by_reported_minimal_history", explained)
 	c.Set("distinct_nontrivial", dist.N())
 	c.Set("alphabet", labels(alpha))
-	c.Set("rule", fmt.Sprintf("for each hash function {degenerate (a,ab collide; c not), chord.Hash}: every operation sequence of length 1..%d (chord.Hash: 1..3) over the %d-operation alphabet run on fresh memory/aof/sqlite stores, every return value and a final full snapshot (Get+PrefixList of a,ab,c; ListKeys(\"\")) compared with the reference model; then BFS to depth %d over the alphabet plus put(k,nil) with de-duplication on (model state, nil/empty/RangeKeys observations of each backend), each transition replayed from an empty store; class = (last operation kind, its model result)", depth, len(alpha), bfsDepth))
+	c.Set("rule", fmt.Sprintf("for each hash function {degenerate (a,ab collide; c not), chord.Hash}: every operation sequence of length 1..%d (chord.Hash: 1..3) over the %d-operation alphabet run on fresh memory/aof/sqlite stores, every return value and a final full snapshot (Get+PrefixList of a,ab,c; ListKeys(\"\")) compared with the reference model; then BFS to depth %d over the alphabet plus put(k,nil) with de-duplication on (model state, nil/empty/RangeKeys observations of each backend), each transition replayed from an empty store; listing-prefix leg: every subset of 13 keys (differing from prefixes only in letter case, containing NUL / bytes >= 0x80 / SQL wildcard characters; simple value or prefix child) x 18 prefixes on each backend compared with the byte-wise prefix match; class = (last operation kind, its model result) / (prefix, number of matching keys)", depth, len(alpha), bfsDepth))
 	c.Set("samples", dist.Samples)
 	c.Set("exhaustive", true)
 	c.Assume("single client, no concurrency (C18 covers that)",
@@ -609,6 +613,23 @@ func c16Replay(c *report.Check, raw []byte) {
 	}
 	if err := json.Unmarshal(raw, &r); err != nil {
 		c.Internal(err.Error())
+		return
+	}
+	var pc c16pCase
+	if json.Unmarshal(raw, &pc) == nil && pc.Section == "listprefix" {
+		bk, err := newBackend(pc.Backend, chord.Hash)
+		if err != nil {
+			c.Internal(err.Error())
+			return
+		}
+		defer bk.close()
+		if err := c16pBuild(bk, pc.Mask); err != nil {
+			c.Internal(err.Error())
+			return
+		}
+		if d, what := c16pCheck(bk, pc.Mask, pc.Prefix); d != "" {
+			c.Violation(fmt.Sprintf("c16:listprefix:%s:stored=%s:prefix=%q:%s", pc.Backend, c16pStored(pc.Mask), c16pPrefixes[pc.Prefix], d), what, pc)
+		}
 		return
 	}
 	bk, err := newBackend(r.Backend, hashByName(r.Hash))
